@@ -153,6 +153,105 @@ pub fn u_term(f: &F, min_components: usize, thorough: bool) -> Vec<LTerm> {
             out.push(LTerm::Set { left_bracket: l.to_string(), terms: elems.clone(), right_bracket: r.to_string() });
         }
     }
+    // deep: chains of every constructor, the nested component in every position
+    for d in if thorough { vec![2usize, 3, 4, 5, 6, 7, 8, 15, 16, 17, 31, 32, 33, 64] } else { vec![2usize, 3, 8, 16, 17, 33, 64] } {
+        out.extend(towers(f, d));
+    }
+    out
+}
+
+/// chains nested `d` deep: every connecter / set bracket pair with the nested component alone,
+/// after a sibling and before a sibling; every copula with it as subject and as predicate
+pub fn towers(f: &F, d: usize) -> Vec<LTerm> {
+    let leaf = atom("", "a");
+    let other = atom(f.e.atom.prefix_variable_dependent, "b1");
+    let cb = &f.e.compound;
+    let mut makers: Vec<Box<dyn Fn(LTerm) -> LTerm>> = vec![];
+    for c in f.connecters() {
+        for pos in 0..3 {
+            let o = other.clone();
+            makers.push(Box::new(move |x| LTerm::Compound {
+                connecter: c.to_string(),
+                terms: match pos {
+                    0 => vec![x],
+                    1 => vec![o.clone(), x],
+                    _ => vec![x, o.clone()],
+                },
+            }));
+        }
+    }
+    for (l, r) in [cb.brackets_set_extension, cb.brackets_set_intension] {
+        for pos in 0..3 {
+            let o = other.clone();
+            makers.push(Box::new(move |x| LTerm::Set {
+                left_bracket: l.to_string(),
+                terms: match pos {
+                    0 => vec![x],
+                    1 => vec![o.clone(), x],
+                    _ => vec![x, o.clone()],
+                },
+                right_bracket: r.to_string(),
+            }));
+        }
+    }
+    for c in f.copulas() {
+        let (o1, o2) = (other.clone(), other.clone());
+        makers.push(Box::new(move |x| LTerm::Statement { copula: c.to_string(), subject: Box::new(x), predicate: Box::new(o1.clone()) }));
+        makers.push(Box::new(move |x| LTerm::Statement { copula: c.to_string(), subject: Box::new(o2.clone()), predicate: Box::new(x) }));
+    }
+    let mut out = vec![];
+    for mk in &makers {
+        let mut t = leaf.clone();
+        for _ in 0..d {
+            t = mk(t);
+        }
+        out.push(t);
+    }
+    // mixed tower cycling through all makers
+    let mut t = leaf.clone();
+    for i in 0..d {
+        t = makers[(i * 7) % makers.len()](t);
+    }
+    out.push(t);
+    out
+}
+
+/// digit strings with every length 1..=25 (signed and unsigned integers; fractions)
+pub fn digit_strings() -> Vec<String> {
+    let mut v = vec![];
+    let mut s = String::new();
+    for k in 1..=25usize {
+        s.push(char::from(b'0' + (k % 10) as u8));
+        v.push(s.clone());
+    }
+    v.extend(["9223372036854775807", "9223372036854775808", "18446744073709551615", "18446744073709551616", "9007199254740993", "99999", "9", "90", "19"].map(String::from));
+    v
+}
+
+/// sentences / tasks / intervals whose numeric strings range over `digit_strings`
+pub fn numeric_family(f: &F) -> Vec<LN> {
+    let s = &f.e.sentence;
+    let (l, r) = s.stamp_brackets;
+    let p = s.punctuation_judgement.to_string();
+    let a = atom("", "a");
+    let mut out = vec![];
+    for d in digit_strings() {
+        for sign in ["", "+", "-"] {
+            let st = format!("{l}{}{sign}{d}{r}", s.stamp_fixed);
+            out.push(LN::Sentence(LS { term: a.clone(), punctuation: p.clone(), stamp: st.clone(), truth: vec![] }));
+            out.push(LN::Task(LT { budget: vec!["0.5".into()], sentence: LS { term: a.clone(), punctuation: p.clone(), stamp: st, truth: vec!["1".into(), "0.9".into()] } }));
+        }
+        let iv = atom(f.e.atom.prefix_interval, &d);
+        out.push(LN::Term(iv.clone()));
+        out.push(LN::Term(LTerm::Compound { connecter: f.e.compound.connecter_conjunction_sequential.to_string(), terms: vec![a.clone(), iv.clone(), a.clone()] }));
+        out.push(LN::Sentence(LS { term: iv, punctuation: p.clone(), stamp: String::new(), truth: vec![] }));
+        for num in [format!("0.{d}"), format!(".{d}"), format!("{d}"), format!("{d}.{d}"), format!("1.{}", "0".repeat(d.len()))] {
+            out.push(LN::Sentence(LS { term: a.clone(), punctuation: p.clone(), stamp: String::new(), truth: vec![num.clone()] }));
+            out.push(LN::Sentence(LS { term: a.clone(), punctuation: p.clone(), stamp: String::new(), truth: vec!["0.5".into(), num.clone()] }));
+            out.push(LN::Task(LT { budget: vec![num.clone()], sentence: LS { term: a.clone(), punctuation: p.clone(), stamp: String::new(), truth: vec![] } }));
+            out.push(LN::Task(LT { budget: vec!["0.5".into(), "0.5".into(), num.clone()], sentence: LS { term: a.clone(), punctuation: p.clone(), stamp: String::new(), truth: vec![num.clone(), num] } }));
+        }
+    }
     out
 }
 
@@ -214,6 +313,7 @@ pub fn u_sent(f: &F) -> Vec<LN> {
             }
         }
     }
+    out.extend(numeric_family(f));
     out
 }
 
